@@ -334,7 +334,7 @@ func init() {
 			if tier == "thorough" {
 				return 20000
 			}
-			return 600
+			return 1500
 		},
 		Run:       c04Run,
 		MustProbe: []string{"timeline_through_one_options_value", "module_branch_with_platform_level_not_UpToDate", "first_match_not_first_level", "no_level_matches", "stale_document_served", "levels_api_no_match"},
